@@ -6,9 +6,9 @@ from . import txncommon
 
 def run(ctx):
     if ctx.quick:
-        txncommon.run(ctx, 88, "plain,cancel,lt,stall,close,edge,drop,gen,edge,edge,edge", par=4)
+        txncommon.run(ctx, 56, "plain,cancel,lt,stall,close,edge,drop,gen", par=4, edge_n=100)
     else:
-        txncommon.run(ctx, 440, "plain,cancel,lt,stall,close,edge,drop,gen,edge,edge,edge", par=4, passes=3)
+        txncommon.run(ctx, 280, "plain,cancel,lt,stall,close,edge,drop,gen", par=4, passes=3, edge_n=600)
 
 
 def selftest(ctx):
